@@ -142,6 +142,22 @@ Theorem C06_round_completes :
 Proof. exact round_completes. Qed.
 Print Assumptions C06_round_completes.
 
+(** object lifecycle: once the last arriver of round gR has left its loops and nobody has called wait again, the
+    round's participants never touch the barrier's words again - every thread is idle or only has its already fixed
+    return value to deliver, no callback pending, no POINT ahead - and the words are what myth_barrier_init writes.
+    A participant whose own wait has returned may therefore destroy and re-initialise the object (any count): the
+    participants that are released but not yet resumed cannot observe it.  (Each incarnation is then one instance
+    of this model; the trace tie replays it per incarnation and compares the returned values.) *)
+Theorem C06_destroy_after_release_unobservable :
+  forall N g, greach N g -> 1 <= gR (gh g) -> (forall u, u < N -> clv (gh g) u = gR (gh g)) ->
+  releasing (mn (st g) (ldr (gh g))) = false ->
+  bstate (st g) = 0%Z /\ top (st g) = None /\
+  forall t, t < N ->
+    cbk (st g) t = CbNone /\ (mn (st g) t = Idle \/ exists r, mn (st g) t = Done r) /\
+    label (st g) t false = String.EmptyString /\ label (st g) t true = String.EmptyString.
+Proof. exact quiescent_after_release. Qed.
+Print Assumptions C06_destroy_after_release_unobservable.
+
 (** the inductive invariant itself (DESIGN.md Appendix B.4) *)
 Theorem C06_invariant : forall N g, greach N g -> Inv N (st g) (gh g).
 Proof. exact BarrierPres.inv_reachable. Qed.
